@@ -82,6 +82,16 @@ var notePool = []string{"", "", "a note", "note with - dash", "Ünïcode ✓", "
 
 var bigUints = []string{"0", "1", "7", "007", "4294967296", "18446744073709551615", "18446744073709551616", "18446744073709551617", "99999999999999999999999999999"}
 
+// bigUint draws a non-negative integer around and far beyond the machine word: the fixed corner
+// values, or 19-24 random digits (any leading digits: overflow checks that only catch some of the
+// wrapped products are a classic slip)
+func bigUint(t *rapid.T) string {
+	if rapid.Bool().Draw(t, "corner") {
+		return rapid.SampledFrom(bigUints[3:]).Draw(t, "bigv")
+	}
+	return rapid.StringMatching(`[1-9][0-9]{18,23}`).Draw(t, "bigdigits")
+}
+
 // enrich adds the rule kinds the base generator does not produce: allOf, long numbers, notes
 func enrich(t *rapid.T, p *model.Project) {
 	p.Root.Walk(func(n *model.Node) {
@@ -97,11 +107,15 @@ func enrich(t *rapid.T, p *model.Project) {
 				}
 			case "maxLength":
 				if rapid.IntRange(0, 2).Draw(t, "big") == 0 {
-					n.Rules[i].Val.Lit = rapid.SampledFrom(bigUints).Draw(t, "bigv")
+					n.Rules[i].Val.Lit = bigUint(t)
 				}
 			case "maxItems":
 				if rapid.IntRange(0, 2).Draw(t, "big") == 0 && len(n.Kids) > 0 {
-					n.Rules[i].Val.Lit = rapid.SampledFrom(bigUints[3:]).Draw(t, "bigv")
+					n.Rules[i].Val.Lit = bigUint(t)
+				}
+			case "precision":
+				if rapid.IntRange(0, 3).Draw(t, "big") == 0 {
+					n.Rules[i].Val.Lit = bigUint(t)
 				}
 			}
 		}
@@ -167,6 +181,14 @@ func TestPropTable(t *testing.T) {
 			model.Scalar("string", `""`, model.R("minLength", model.Num("0")), model.R("maxLength", model.Num(u))),
 			model.Arr(model.R("maxItems", model.Num(u))).Item(model.Scalar("integer", "1")),
 			model.Scalar("float", "1.5", model.R("precision", model.Num(u))))
+	}
+	for lead := 10; lead <= 99; lead++ {
+		for _, zeros := range []int{18, 19} {
+			u := fmt.Sprint(lead) + strings.Repeat("0", zeros)
+			nodes = append(nodes,
+				model.Scalar("string", `"abc"`, model.R("maxLength", model.Num(u))),
+				model.Arr(model.R("maxItems", model.Num(u))).Item(model.Scalar("integer", "1")))
+		}
 	}
 	for _, d := range []string{"1", "-0", "0.000", "1.50", "-12.0010", "123456789012345678901234567890", "0.0000000000000000000000001"} {
 		nodes = append(nodes, model.Scalar("float", "1000000000000000000000000000000000.5", model.R("min", model.Num(d))),
